@@ -439,7 +439,7 @@ def check(rep, tier, seed):
     # numeric operations x numeric pool, full cross product (division by exact and inexact zero, NaN, infinities, ...)
     numpool = ["0", "1", "-1", "0.0", "-0.0", "1.5", "+inf.0", "-inf.0", "+nan.0", "1/2", "-7/3", "4611686018427387904",
                "-4611686018427387904", "(expt 2 200)", "1+2i", "0.0+0.0i"]
-    numops2 = ["quotient", "remainder", "modulo", "/", "floor/", "truncate/", "floor-quotient", "floor-remainder",
+    numops2 = ["+", "-", "*", "quotient", "remainder", "modulo", "/", "floor/", "truncate/", "floor-quotient", "floor-remainder",
                "truncate-quotient", "truncate-remainder", "expt", "gcd", "lcm", "atan", "exact-integer-sqrt", "max", "<", "=",
                "number->string", "arithmetic-shift", "exact-rational?", "rationalize"]
     numops1 = ["exact", "inexact", "sqrt", "exact-integer-sqrt", "log", "exp", "floor", "round", "truncate", "numerator",
